@@ -296,6 +296,9 @@ package ggql
 //@   ensures[no-members] len(t.Members) == 0 ==> len(errs) > 0
 //@   ensures[non-object-member] nonObjectMember(t.Members, len(t.Members)) ==> len(errs) > 0
 //@   ensures[accepts] len(t.Members) > 0 && !nonObjectMember(t.Members, len(t.Members)) ==> len(errs) == 0
+//@   ensures[iface-accepts-only-valid] len(errs) == 0 ==> validDef(box(t))
+//@   ensures[iface-rejects-invalid] !validDef(box(t)) ==> len(errs) > 0
+//@   use validDefUnion(t)
 //@   assigns fresh
 //@   loop 0: invariant[bounds] rangeindex+1 <= len(t.Members)
 //@           invariant[found] len(errs) > 0 <==> nonObjectMember(t.Members, rangeindex+1)
@@ -335,6 +338,9 @@ package ggql
 //@   ensures[no-fields] len(t.fields.list) == 0 ==> len(errs) > 0
 //@   ensures[bad-field] badFieldUpTo(t.fields.list, len(t.fields.list)) ==> len(errs) > 0
 //@   ensures[accepts] len(t.fields.list) > 0 && !badFieldUpTo(t.fields.list, len(t.fields.list)) ==> len(errs) == 0
+//@   ensures[iface-accepts-only-valid] len(errs) == 0 ==> validDef(box(t))
+//@   ensures[iface-rejects-invalid] !validDef(box(t)) ==> len(errs) > 0
+//@   use validDefInterface(t)
 //@   assigns fresh
 
 //@ -- input objects: at least one field; field names well-formed; input types in field positions
@@ -348,7 +354,47 @@ package ggql
 //@   ensures[no-fields] len(t.fields.list) == 0 ==> len(errs) > 0
 //@   ensures[bad-field] badInputFieldUpTo(t.fields.list, len(t.fields.list)) ==> len(errs) > 0
 //@   ensures[accepts] len(t.fields.list) > 0 && !badInputFieldUpTo(t.fields.list, len(t.fields.list)) ==> len(errs) == 0
+//@   ensures[iface-accepts-only-valid] len(errs) == 0 ==> validDef(box(t))
+//@   ensures[iface-rejects-invalid] !validDef(box(t)) ==> len(errs) > 0
+//@   use validDefInput(t)
 //@   assigns fresh
 //@   loop 0: invariant[bounds] rangeindex+1 <= len(t.fields.list)
 //@           invariant[found] len(errs) > 0 <==> badInputFieldUpTo(t.fields.list, rangeindex+1)
 //@           decreases len(t.fields.list) - rangeindex
+
+//@ -- ------------------------------------------------------------------ the whole-table check
+//@ -- validDef(t): t satisfies the rules of its kind. Validate of every kind answers "no error iff validDef"; the
+//@ -- definition of validDef per kind is given next to that kind's Validate (union, interface, input object so far;
+//@ -- for the other kinds the interface contract below is an assumption at the dynamic call in Root.validate).
+//@ spec validDef(t Type) bool
+//@ interface Type.Validate
+//@   results errs
+//@   ensures[accepts-only-valid] len(errs) == 0 ==> validDef(recv)
+//@   ensures[rejects-invalid] !validDef(recv) ==> len(errs) > 0
+//@   assigns fresh, H_ArgValue.Value, H_Arg.Default, H_InputField.Default
+//@ axiom validDefUnion(t *Union): t != nil ==> (validDef(box(t)) <==> (len(t.Members) > 0 && !nonObjectMember(t.Members, len(t.Members))))
+//@ axiom validDefInterface(t *Interface): t != nil ==> (validDef(box(t)) <==> (len(t.fields.list) > 0 && !badFieldUpTo(t.fields.list, len(t.fields.list))))
+//@ axiom validDefInput(t *Input): t != nil ==> (validDef(box(t)) <==> (len(t.fields.list) > 0 && !badInputFieldUpTo(t.fields.list, len(t.fields.list))))
+
+//@ -- the type table and the directive table hold real types
+//@ eleminv []Type: v != nil && ptrval(v) != 0
+
+//@ spec nameOk(t Type) bool = ite(is(t, *Schema), len(t.Name()) == 0, goodName(t.Name(), t.Core()))
+//@ spec badEntryUpTo(ts []Type, n int) bool = exists j int {ts[j]} :: 0 <= j && j < n && (!validDef(ts[j]) || !nameOk(ts[j]))
+
+//@ -- Root.validate checks every entry of both tables: it returns no error only if every type and every directive has
+//@ -- a well-formed name and satisfies the rules of its kind, and it returns an error as soon as one entry does not
+//@ func (*Root).validate
+//@   props C13
+//@   check panic {C03}
+//@   requires root != nil && root.types != nil && root.dirs != nil
+//@   results res
+//@   ensures[rejects-bad-type] badEntryUpTo(old(root.types.list), old(len(root.types.list))) ==> res != nil
+//@   ensures[rejects-bad-directive] badEntryUpTo(old(root.dirs.list), old(len(root.dirs.list))) ==> res != nil
+//@   ensures[accepted-means-valid] res == nil ==> !badEntryUpTo(old(root.types.list), old(len(root.types.list))) && !badEntryUpTo(old(root.dirs.list), old(len(root.dirs.list)))
+//@   loop 0: invariant[found] badEntryUpTo(old(root.types.list), rangeindex+1) ==> len(errs) > 0
+//@           invariant[clean] len(errs) == 0 ==> !badEntryUpTo(old(root.types.list), rangeindex+1)
+//@   loop 1: invariant[types-done] badEntryUpTo(old(root.types.list), old(len(root.types.list))) ==> len(errs) > 0
+//@           invariant[types-clean] len(errs) == 0 ==> !badEntryUpTo(old(root.types.list), old(len(root.types.list)))
+//@           invariant[found] badEntryUpTo(old(root.dirs.list), rangeindex+1) ==> len(errs) > 0
+//@           invariant[clean] len(errs) == 0 ==> !badEntryUpTo(old(root.dirs.list), rangeindex+1)
